@@ -162,11 +162,22 @@ impl UnitRunner for C15 {
             if let (Some(la), Some(lb)) = (lit(&da), lit(&db)) {
               let ls = ds.as_ref().and_then(|d| lit(d));
               if s.is_none() || ls.is_some() {
-                let lexpr = form.replace("{a}", &la).replace("{b}", &lb).replace("{s}", &ls.unwrap_or_default());
-                out.evaluations += 1;
-                let ol = sess.run(&format!("l{} := {}", n, lexpr));
-                let same = match (&o, &ol) { (Outcome::Value(x), Outcome::Value(y)) => x == y, (Outcome::Value(_), _) | (_, Outcome::Value(_)) => false, (_, Outcome::Panic(_)) => false, _ => true };
-                if same { out.count("literal_operands_agree"); } else { out.fail(format!("C15|operand-spelling-differs|{}:{}", fname, kclass), format!("{}; literal spelling r := {}", case.clone(), lexpr), format!("with variables {}, with literals {}", o.short(), ol.short())); }
+                // every operand in each of its spellings: immutable variable, literal, mutable variable (one compile arm per combination)
+                if !sess.is_mutable("ma") { let _ = sess.run(&format!("~m{}", da)); let _ = sess.run(&format!("~m{}", db)); if let Some(d) = &ds { let _ = sess.run(&format!("~m{}", d)); } }
+                let ls = ls.unwrap_or_default();
+                let sp_a = ["a".to_string(), la.clone(), "ma".to_string()];
+                let sp_b = ["b".to_string(), lb.clone(), "mb".to_string()];
+                let sp_s: Vec<String> = if s.is_some() { vec!["s".to_string(), ls.clone(), "ms".to_string()] } else { vec![String::new()] };
+                let mut k = 0;
+                for xa in sp_a.iter() { for xb in sp_b.iter() { for xs in sp_s.iter() {
+                  if xa == "a" && xb == "b" && (xs == "s" || xs.is_empty()) { continue; }
+                  k += 1;
+                  let lexpr = form.replace("{a}", xa).replace("{b}", xb).replace("{s}", xs);
+                  out.evaluations += 1;
+                  let ol = sess.run(&format!("l{}x{} := {}", n, k, lexpr));
+                  let same = match (&o, &ol) { (Outcome::Value(x), Outcome::Value(y)) => x == y, (Outcome::Value(_), _) | (_, Outcome::Value(_)) => false, (_, Outcome::Panic(_)) => false, _ => true };
+                  if same { out.count("operand_spellings_agree"); } else { out.fail(format!("C15|operand-spelling-differs|{}:{}", fname, kclass), format!("{}; other operand spelling r := {} (ma, mb, ms: the same values in mutable variables)", case.clone(), lexpr), format!("with variables {}, in this spelling {}", o.short(), ol.short())); }
+                } } }
               }
             }
           }
